@@ -56,6 +56,10 @@ type Engine struct {
 	strOps    map[string]bool
 	loopStates map[*loopInfo]*liState
 	oblCount map[string]int
+	allocBase string // loop allocation base of the block being executed ("" outside loops)
+	loopAllocN map[string]int
+	lastLoopBase string
+	allocMark int
 	parseCalls []string
 	guard string // reach condition of the block being executed (guards stores)
 	memo map[string]execResult
@@ -65,7 +69,7 @@ type Engine struct {
 
 func newEngine(w *World) *Engine {
 	e := &Engine{w: w, sc: newScript(), comps: map[string]*component{}, lits: map[string]string{}, litFacts: map[string]bool{},
-		guard: "true", tags: map[string]int{}, funcIDs: map[*ssa.Function]int{}, abstracted: map[string]int{}, assumedExt: map[string]int{},
+		guard: "true", loopAllocN: map[string]int{}, tags: map[string]int{}, funcIDs: map[*ssa.Function]int{}, abstracted: map[string]int{}, assumedExt: map[string]int{},
 		inlined: map[string]int{}, usedContracts: map[string]int{}, uf: map[string]bool{}, strOps: map[string]bool{}, loopStates: map[*loopInfo]*liState{}, oblCount: map[string]int{}, memo: map[string]execResult{}, dirty: map[string]bool{}}
 	e.sc.add("(declare-sort F64 0)")
 	e.sc.add("(declare-const f64_zero F64)")
@@ -127,6 +131,15 @@ func (e *Engine) warn(format string, a ...interface{}) {
 	e.warnings = append(e.warnings, fmt.Sprintf(format, a...))
 }
 
+func (e *Engine) warnOnce(msg string) {
+	for _, w := range e.warnings {
+		if w == msg {
+			return
+		}
+	}
+	e.warnings = append(e.warnings, msg)
+}
+
 func (e *Engine) oblige(o *Obligation) {
 	if o.Goal == "true" && !o.Cover {
 		return
@@ -179,6 +192,7 @@ type loopInfo struct {
 	invs   []*ssa.Call // ghost invariant calls (in source order)
 	decs   []*ssa.Call
 	cone   []ssa.Instruction // pure instructions (outside header) feeding ghost calls, in order
+	base   string            // allocation base symbol of the loop body
 }
 
 type execResult struct {
@@ -491,6 +505,11 @@ func (e *Engine) execBlock(fr *frame, b *ssa.BasicBlock, entryReach string, entr
 	if li != nil {
 		reach, heap = e.enterLoop(fr, li, reach, heap, conds, idxs)
 	}
+	saveBase := e.allocBase
+	if inner := e.innermost(fr, b); inner != nil && inner.base != "" {
+		e.allocBase = inner.base
+	}
+	defer func() { e.allocBase = saveBase }()
 	for _, ins := range b.Instrs {
 		if phi, ok := ins.(*ssa.Phi); ok {
 			if li != nil {
